@@ -52,11 +52,16 @@ func c15Report(tb vt.TB, diffs []c15Diff, rc c15Replay) bool {
 	return false
 }
 
-// c15ErrClass names the one failure class of the writers that has a recognisable cause: the YAML writer refusing a
-// string (DEL, C1 controls, U+FFFE/U+FFFF) that the YAML reader accepted as an escape sequence.
+// c15ErrClass names the failure classes that have a recognisable cause: the YAML writer refusing a string (DEL, C1
+// controls, U+FFFE/U+FFFF) that the YAML reader accepted as an escape sequence; the archive loader's parent-directory
+// guard firing.
 func c15ErrClass(err error) string {
-	if strings.Contains(err.Error(), "control characters are not allowed") {
+	switch {
+	case strings.Contains(err.Error(), "control characters are not allowed"):
 		return "/yaml-writer-rejects-control-character"
+	case strings.Contains(err.Error(), "illegally references parent directory"):
+		// the archive loader refusing an entry; no generated name contains a ".." path element
+		return "/name-starting-with-two-dots-taken-for-parent-directory"
 	}
 	return ""
 }
@@ -120,7 +125,7 @@ func c15JudgeA(tb vt.TB, spec *c15Spec) (cut bool) {
 	}
 	c1, err := loader.Load(tgz)
 	if err != nil {
-		return fail("C15:saved-chart-not-loadable/save", "Load(archive): "+err.Error())
+		return fail("C15:saved-chart-not-loadable/save"+c15ErrClass(err), "Load(archive): "+err.Error())
 	}
 	diffs = nil
 	c15Compare(want, c15SnapOf(c1), "save", want.Name, &diffs)
@@ -141,7 +146,7 @@ func c15JudgeA(tb vt.TB, spec *c15Spec) (cut bool) {
 	cD, errD := loader.Load(dirH)
 	switch {
 	case errT != nil:
-		return fail("C15:valid-chart-rejected/load-archive", "Load(harness archive): "+errT.Error())
+		return fail("C15:valid-chart-rejected/load-archive"+c15ErrClass(errT), "Load(harness archive): "+errT.Error())
 	case errD != nil:
 		return fail("C15:valid-chart-rejected/load-directory", "Load(harness directory): "+errD.Error())
 	}
@@ -166,7 +171,7 @@ func c15JudgeA(tb vt.TB, spec *c15Spec) (cut bool) {
 	}
 	c2, err := loader.Load(filepath.Join(outD, want.Name))
 	if err != nil {
-		return fail("C15:saved-chart-not-loadable/save-dir", "Load(directory): "+err.Error())
+		return fail("C15:saved-chart-not-loadable/save-dir"+c15ErrClass(err), "Load(directory): "+err.Error())
 	}
 	diffs = nil
 	c15Compare(c15FilterRoot(want, c15DefaultRules), c15SnapOf(c2), "save-dir", want.Name, &diffs)
@@ -182,7 +187,7 @@ func c15SpecFingerprint(s *c15Spec) string {
 }
 
 func c15PropA(t *rapid.T) {
-	info := &c15Info{labels: map[string]bool{}}
+	info := &c15Info{labels: map[string]bool{}, bom: rapid.IntRange(0, 7).Draw(t, "bomCase") == 0}
 	name := rapid.SampledFrom([]string{"c", "my-chart", "Chart_1.x", "ünï-chart", "sp ace", "UPPER", "a.v1", "x-1.0.0"}).Draw(t, "rootName")
 	spec := c15GenSpec(t, 0, name, info)
 	if c15JudgeA(t, spec) {
